@@ -8,16 +8,20 @@
 // several read buffer sizes.  Histories of operations
 // (ReadPage/ReadRows, SeekToRow, loading the offset index, Reset) are run on
 // ColumnChunk.Pages(), RowGroup.Rows(), parquet.NewReader and
-// parquet.NewGenericReader, and on the column pages and the rows of
-// parquet.MultiRowGroup over all the row groups, flat and nested in fixed and
-// random shapes.  The property predicate is evaluated directly on
+// parquet.NewGenericReader, on Column.Pages()/PagesFrom of the leaf columns
+// of the file (one page reader over all the row groups), and on the column
+// pages and the rows of parquet.MultiRowGroup over all the row groups, flat and
+// nested in fixed and random shapes.  Histories of page readers are also
+// followed by a sequential read to the end, which observes whatever state the
+// history left behind in any row group.  The property predicate is evaluated directly on
 // what the implementation returns (it tracks one row position: after
 // SeekToRow(k) the rows returned must be k, k+1, ... and errors only happen
 // where a fresh sequential reader is at the end), and the per-operation
 // outputs (exact first row and count of every page / batch, io.EOF flags) are
 // compared with the extracted Coq models: the page cursor (Cursor/Model.v), and
 // on top of it the multi-column rowGroupRows over the page layouts of all five
-// columns, multiPages, reader/Reader/GenericReader (Cursor/Multi.v), the
+// columns, multiPages, reader/Reader/GenericReader (Cursor/Multi.v),
+// columnPages (Cursor/ColumnPages.v), the
 // flattening of nested multi row groups (Cursor/Nested.v) and, in
 // async read mode, asyncPages under schedules drawn by the model
 // (Cursor/AsyncPages.v).
@@ -227,7 +231,7 @@ func c08FlushSizes(s string) ([]int, error) {
 type c08Case struct {
 	File   c08FileParams `json:"file"`
 	Open   c08Open       `json:"open"`
-	Target string        `json:"target"` // pages | rows | reader | generic | multipages | multirows
+	Target string        `json:"target"` // pages | rows | reader | generic | multipages | multirows | columnpages
 	RG     int           `json:"row_group"`
 	Col    int           `json:"column"`
 	// multipages / multirows: how the row groups of the file are combined with
@@ -237,6 +241,14 @@ type c08Case struct {
 	// nesting the rows are those of the file.
 	Nest string   `json:"nest,omitempty"`
 	Ops  []string `json:"ops"`
+	// page readers: after the history the reader is read sequentially to its
+	// end (ReadPage until io.EOF), so that whatever state the history left
+	// behind in any row group is observed: what follows must be the rows of a
+	// fresh sequential read from the current position
+	Drain bool `json:"drain,omitempty"`
+	// columnpages: Column.PagesFrom(a reader over the bytes of the file)
+	// instead of Column.Pages()
+	From bool `json:"pages_from,omitempty"`
 }
 
 // c08BuildNest combines the row groups as the nest expression says.
@@ -597,60 +609,70 @@ func c08PageValues(pg parquet.Page) ([]parquet.Value, error) {
 // group of the file (N rows, the first one is row off of the file) or the
 // column of the MultiRowGroup over all row groups.
 func c08RunPages(cc parquet.ColumnChunk, N, off int64, cs *c08Case, res *c08Result) {
-	pages := cc.Pages()
+	c08RunPagesOn(cc.Pages(), func() error { _, err := cc.OffsetIndex(); return err }, N, off, cs, res)
+}
+
+// c08RunPagesOn runs a history on a page reader over N rows; loadIndex (nil:
+// not available) loads the offset index of the chunk underneath.
+func c08RunPagesOn(pages parquet.Pages, loadIndex func() error, N, off int64, cs *c08Case, res *c08Result) {
 	defer pages.Close()
 	pos := int64(0)
+	// readPage: one ReadPage; false when it returned an error
+	readPage := func(what string) bool {
+		pg, err := pages.ReadPage()
+		if err != nil {
+			e := c08Err(err)
+			res.outs = append(res.outs, e)
+			if e != "e" {
+				res.fail("error", "%s ReadPage at row %d of %d: unexpected error %v", what, pos, N, err)
+			} else if pos < N {
+				res.fail("early-eof", "%s ReadPage at row %d of %d returned io.EOF", what, pos, N)
+			}
+			return false
+		}
+		n := pg.NumRows()
+		vals, verr := c08PageValues(pg)
+		rows := c08SplitRows(vals)
+		first := int64(-1)
+		if len(rows) > 0 {
+			first = c08RowOf(cs.Col, rows[0]) - off
+		}
+		good := verr == nil && int64(len(rows)) == n && n > 0 && pos+n <= N
+		if good {
+			for j, rv := range rows {
+				exp := c08Expect(cs.Col, off+pos+int64(j))
+				if len(exp) != len(rv) {
+					good = false
+					break
+				}
+				for x := range exp {
+					if !c08CellEq(exp[x], rv[x]) {
+						good = false
+					}
+				}
+				if !good {
+					if r := c08RowOf(cs.Col, rv); r >= 0 && first < 0 {
+						first = r - off - int64(j)
+					}
+					break
+				}
+			}
+		}
+		parquet.Release(pg)
+		if good {
+			res.outs = append(res.outs, fmt.Sprintf("p%x.%x", pos, n))
+		} else {
+			res.outs = append(res.outs, fmt.Sprintf("p?%d.%d", first, n))
+			res.fail("wrong-rows", "%s ReadPage: expected rows starting at %d, got a page of %d rows (%d row value groups) that starts at row %d (column %s)", what, pos, n, len(rows), first, c08ColNames[cs.Col])
+		}
+		pos += n
+		return true
+	}
 	for i, op := range cs.Ops {
 		code, arg := c08ParseOp(op)
 		switch {
 		case code == 'r' && arg < 0:
-			pg, err := pages.ReadPage()
-			if err != nil {
-				e := c08Err(err)
-				res.outs = append(res.outs, e)
-				if e != "e" {
-					res.fail("error", "op %d ReadPage at row %d of %d: unexpected error %v", i, pos, N, err)
-				} else if pos < N {
-					res.fail("early-eof", "op %d ReadPage at row %d of %d returned io.EOF", i, pos, N)
-				}
-				continue
-			}
-			n := pg.NumRows()
-			vals, verr := c08PageValues(pg)
-			rows := c08SplitRows(vals)
-			first := int64(-1)
-			if len(rows) > 0 {
-				first = c08RowOf(cs.Col, rows[0]) - off
-			}
-			good := verr == nil && int64(len(rows)) == n && n > 0 && pos+n <= N
-			if good {
-				for j, rv := range rows {
-					exp := c08Expect(cs.Col, off+pos+int64(j))
-					if len(exp) != len(rv) {
-						good = false
-						break
-					}
-					for x := range exp {
-						if !c08CellEq(exp[x], rv[x]) {
-							good = false
-						}
-					}
-					if !good {
-						if r := c08RowOf(cs.Col, rv); r >= 0 && first < 0 {
-							first = r - off - int64(j)
-						}
-						break
-					}
-				}
-			}
-			parquet.Release(pg)
-			if good {
-				res.outs = append(res.outs, fmt.Sprintf("p%x.%x", pos, n))
-			} else {
-				res.outs = append(res.outs, fmt.Sprintf("p?%d.%d", first, n))
-				res.fail("wrong-rows", "op %d ReadPage: expected rows starting at %d, got a page of %d rows (%d row value groups) that starts at row %d (column %s)", i, pos, n, len(rows), first, c08ColNames[cs.Col])
-			}
-			pos += n
+			readPage(fmt.Sprintf("op %d", i))
 		case code == 's':
 			err := pages.SeekToRow(arg)
 			e := c08Err(err)
@@ -660,16 +682,45 @@ func c08RunPages(cc parquet.ColumnChunk, N, off int64, cs *c08Case, res *c08Resu
 			} else {
 				pos = arg
 			}
-		case code == 'l':
-			if _, err := cc.OffsetIndex(); err != nil {
+		case code == 'l' && loadIndex != nil:
+			if err := loadIndex(); err != nil {
 				res.fail("error", "op %d OffsetIndex(): %v", i, err)
 			}
 			res.outs = append(res.outs, "d")
 		default:
 			res.outs = append(res.outs, "?")
-			res.fail("bad-op", "op %q does not apply to a page reader", op)
+			res.fail("bad-op", "op %q does not apply to this page reader", op)
 		}
 	}
+	if cs.Drain {
+		// every page holds at least one row: at most N pages, then io.EOF
+		ended := false
+		for n := int64(0); n < N+2 && !ended; n++ {
+			ended = !readPage(fmt.Sprintf("sequential read %d after the history:", n))
+		}
+		if !ended {
+			res.fail("no-eof", "the sequential read after the history returned %d pages on %d rows and no io.EOF", N+2, N)
+		}
+	}
+}
+
+// c08LeafColumn walks from the root of the file to leaf col by name:
+// f.Root().Column(...)...
+func c08LeafColumn(f *parquet.File, col int) *parquet.Column {
+	paths := f.Schema().Columns()
+	if col < 0 || col >= len(paths) {
+		return nil
+	}
+	c := f.Root()
+	for _, name := range paths[col] {
+		if c = c.Column(name); c == nil {
+			return nil
+		}
+	}
+	if !c.Leaf() {
+		return nil
+	}
+	return c
 }
 
 // c08RowsTarget abstracts RowGroup.Rows(), Reader and GenericReader.
@@ -939,6 +990,20 @@ func c08Exec(cs *c08Case) (res *c08Result, b *c08Built) {
 				return
 			}
 			c08RunPages(mrg.ColumnChunks()[cs.Col], b.total, 0, cs, res)
+		case "columnpages":
+			// the pages of a column of the file over all its row groups: columnPages
+			col := c08LeafColumn(f, cs.Col)
+			if col == nil {
+				res.fail("bad-op", "no such leaf column")
+				return
+			}
+			var pages parquet.Pages
+			if cs.From {
+				pages = col.PagesFrom(bytes.NewReader(b.data))
+			} else {
+				pages = col.Pages()
+			}
+			c08RunPagesOn(pages, nil, b.total, 0, cs, res)
 		case "multirows":
 			if len(b.rgRows) < 2 {
 				res.fail("bad-op", "multirows needs at least two row groups")
@@ -1038,9 +1103,25 @@ func c08ColsOfFile(b *c08Built) string {
 	return strings.Join(parts, "/")
 }
 
+// c08Modelled: the case as the models see it: the sequential read after the
+// history written out as the ReadPage operations that were made.
+func c08Modelled(cs *c08Case, res *c08Result) *c08Case {
+	if !cs.Drain {
+		return cs
+	}
+	t := *cs
+	t.Drain = false
+	t.Ops = append([]string(nil), cs.Ops...)
+	for len(t.Ops) < len(res.outs) {
+		t.Ops = append(t.Ops, "r")
+	}
+	return &t
+}
+
 // c08Request is the oracle request that models the case: the faithful model of
 // the current code for every target (page cursor; rowGroupRows over the five
-// column cursors; multiPages; reader/Reader/GenericReader over the row groups).
+// column cursors; multiPages; columnPages; reader/Reader/GenericReader over the
+// row groups).
 func c08Request(cs *c08Case, b *c08Built) string {
 	m := "idx"
 	if cs.Open.SkipIndex {
@@ -1058,6 +1139,8 @@ func c08Request(cs *c08Case, b *c08Built) string {
 			return "c08.nested " + m + " " + cs.Nest + " " + c08ChunksOfCol(b, cs.Col) + " " + c08OpsTok(cs.Ops)
 		}
 		return "c08.mpages " + m + " " + c08ChunksOfCol(b, cs.Col) + " " + c08OpsTok(cs.Ops)
+	case "columnpages":
+		return "c08.cpages " + m + " " + c08ChunksOfCol(b, cs.Col) + " " + c08OpsTok(cs.Ops)
 	case "rows":
 		return "c08.mrows " + m + " " + c08ColsOfRG(b, cs.RG) + " " + c08OpsTok(cs.Ops)
 	case "multirows":
@@ -1082,6 +1165,8 @@ func c08SpecRequest(cs *c08Case, b *c08Built) string {
 	switch cs.Target {
 	case "multipages":
 		return "c08.mpages spec " + c08ChunksOfCol(b, cs.Col) + " " + c08OpsTok(cs.Ops)
+	case "columnpages":
+		return "c08.cpages spec " + c08ChunksOfCol(b, cs.Col) + " " + c08OpsTok(cs.Ops)
 	case "rows":
 		if cs.Open.SkipIndex {
 			return ""
@@ -1158,6 +1243,8 @@ func c08Check(c *core.Ctx, cs *c08Case) string {
 		return res.kind
 	}
 	if b != nil && c.HasOracle() {
+		rcs := cs
+		cs = c08Modelled(cs, res)
 		req := c08Request(cs, b)
 		want := c.Ask(req)
 		got := strings.Join(res.outs, ",")
@@ -1165,7 +1252,7 @@ func c08Check(c *core.Ctx, cs *c08Case) string {
 			got = "_"
 		}
 		if want != got {
-			c.Mismatch("corr:C08."+cs.Target, req, got, want, cs)
+			c.Mismatch("corr:C08."+cs.Target, req, got, want, rcs)
 			return "corr"
 		}
 		// a sample of the cases is also compared with the specification the
@@ -1173,7 +1260,7 @@ func c08Check(c *core.Ctx, cs *c08Case) string {
 		c08Checked++
 		if sreq := c08SpecRequest(cs, b); sreq != "" && c08Checked%16 == 0 {
 			if spec := c.Ask(sreq); spec != got {
-				c.Mismatch("corr:C08."+cs.Target+".spec", sreq, got, spec, cs)
+				c.Mismatch("corr:C08."+cs.Target+".spec", sreq, got, spec, rcs)
 				return "corr"
 			}
 		}
@@ -1181,7 +1268,7 @@ func c08Check(c *core.Ctx, cs *c08Case) string {
 			for seed := 1; seed <= 2; seed++ {
 				areq := c08AsyncRequest(cs, b, seed+7*c08Checked)
 				if ans := c.Ask(areq); ans != got+"/1" {
-					c.Mismatch("corr:C08.async", areq, got, ans, cs)
+					c.Mismatch("corr:C08.async", areq, got, ans, rcs)
 					return "corr"
 				}
 			}
@@ -1248,6 +1335,8 @@ func c08Simplify(c *core.Ctx, t *c08Case, kind string) (*c08Case, string) {
 		func(u *c08Case) bool { ok := u.File.Enc != ""; u.File.Enc = ""; return ok },
 		func(u *c08Case) bool { ok := u.Open.ReadBuf != 0; u.Open.ReadBuf = 0; return ok },
 		func(u *c08Case) bool { ok := u.Open.Async; u.Open.Async = false; return ok },
+		func(u *c08Case) bool { ok := u.From; u.From = false; return ok },
+		func(u *c08Case) bool { ok := u.Drain; u.Drain = false; return ok },
 	} {
 		u := *t
 		if simpler(&u) {
@@ -1427,8 +1516,27 @@ func c08CoqNats(xs []int64) string {
 }
 
 func runC08(c *core.Ctx) {
-	c.Res.Rule = "files of rows (id, optional, list, dictionary string, optional leaf in an optional group; every value identifies its row; the five columns have different page layouts) written with small pages (PageBufferSize 16..96), 1..4 row groups, data pages v1 and v2; also row groups of uneven sizes (Flush), unencrypted and encrypted (encrypted footer / plaintext footer, footer key only / column keys); opened with/without SkipPageIndex, sync/async, ReadBufferSize default/16/64/300/65536. Histories over {ReadPage | ReadRows(n in 1,3,64,1000) | Reader.Read(one row), SeekToRow(k: 0, page and row-group boundaries +-1, N-1, N, N+3, random), load the offset index, Reset}: a corpus (the repaired defects first), ALL histories of length 4 (quick) / 5 (thorough) over a 9..12 letter alphabet on 22-row files, random histories up to length 40 on 300-row files; run on ColumnChunk.Pages (every column), RowGroup.Rows, NewReader (ReadRows and Read), NewGenericReader (Read), and the column pages (multiPages) and rows of MultiRowGroup over all row groups, flat and nested 1..4 levels deep in fixed and random shapes (the outputs must be those of the flat concatenation). Every per-operation output (first row and count of the page/batch, io.EOF) is compared with the extracted model of that layer (page cursor; rowGroupRows over the page layouts of all five columns; multiPages; reader/Reader/GenericReader), a sample also with the position specification, async page histories also with the asyncPages model under model-drawn schedules. A case = (file, open options, reader, history); non-trivial = at least 2 operations; distinct by the JSON of the case."
-	var vm, vmRows, vmReader, vmNested []string
+	c.Res.Rule = "files of rows (id, optional, list, dictionary string, optional leaf in an optional group; every value identifies its row; the five columns have different page layouts) written with small pages (PageBufferSize 16..96), 1..4 row groups, data pages v1 and v2; also row groups of uneven sizes (Flush), unencrypted and encrypted (encrypted footer / plaintext footer, footer key only / column keys); opened with/without SkipPageIndex, sync/async, ReadBufferSize default/16/64/300/65536. Histories over {ReadPage | ReadRows(n in 1,3,64,1000) | Reader.Read(one row), SeekToRow(k: 0, page and row-group boundaries +-1, N-1, N, N+3, random), load the offset index, Reset}: a corpus (the repaired defects first), ALL histories of length 4 (quick) / 5 (thorough) over a 9..12 letter alphabet on 22-row files, random histories up to length 40 on 300-row files; run on ColumnChunk.Pages (every column), RowGroup.Rows, NewReader (ReadRows and Read), NewGenericReader (Read), Column.Pages() / PagesFrom of every leaf column of the file (columnPages: one page cursor per row group; histories with backward seeks out of a row group that has been read from), and the column pages (multiPages) and rows of MultiRowGroup over all row groups, flat and nested 1..4 levels deep in fixed and random shapes (the outputs must be those of the flat concatenation). Histories of Column.Pages() (all) and of the other page readers (half of the random ones) are followed by a sequential read to io.EOF whose pages must be the rows from the current position on. Every per-operation output (first row and count of the page/batch, io.EOF) is compared with the extracted model of that layer (page cursor; rowGroupRows over the page layouts of all five columns; multiPages; columnPages; reader/Reader/GenericReader), a sample also with the position specification, async page histories also with the asyncPages model under model-drawn schedules. A case = (file, open options, reader, history); non-trivial = at least 2 operations; distinct by the JSON of the case."
+	var vm, vmRows, vmReader, vmNested, vmCP []string
+	// Column.Pages(): the column pages against run_cpages_indexed inside coqc
+	addVmCP := func(cs *c08Case) {
+		if cs.Target != "columnpages" || cs.Open.SkipIndex || len(vmCP) >= 80 {
+			return
+		}
+		res, b := c08Exec(cs)
+		if b == nil || res.kind != "" {
+			return
+		}
+		outs, ok := c08CoqOuts(res.outs)
+		if !ok {
+			return
+		}
+		var chunks []string
+		for g := range b.layout {
+			chunks = append(chunks, c08CoqNats(b.layout[g][cs.Col]))
+		}
+		vmCP = append(vmCP, fmt.Sprintf("(%s, %s, %s)", core.CoqList(chunks), c08CoqOps(c08Modelled(cs, res).Ops), outs))
+	}
 	// nested multi row groups: the column pages against run_nested_indexed inside coqc
 	addVmNested := func(cs *c08Case) {
 		if cs.Target != "multipages" || cs.Nest == "" || cs.Open.SkipIndex || cs.Open.Async || len(vmNested) >= 60 {
@@ -1500,6 +1608,7 @@ func runC08(c *core.Ctx) {
 	}
 	addVm := func(cs *c08Case) {
 		addVmRows(cs)
+		addVmCP(cs)
 		if cs.Target != "pages" || cs.Open.SkipIndex || len(vm) >= 400 {
 			return
 		}
@@ -1511,7 +1620,7 @@ func runC08(c *core.Ctx) {
 		if !ok {
 			return
 		}
-		vm = append(vm, fmt.Sprintf("(%s, %s, %s)", c08CoqNats(b.layout[cs.RG][cs.Col]), c08CoqOps(cs.Ops), outs))
+		vm = append(vm, fmt.Sprintf("(%s, %s, %s)", c08CoqNats(b.layout[cs.RG][cs.Col]), c08CoqOps(c08Modelled(cs, res).Ops), outs))
 	}
 
 	small := func(v int) c08FileParams { return c08FileParams{Rows: 22, PageBuf: 16, Version: v, Batch: 5} }
@@ -1596,6 +1705,24 @@ func runC08(c *core.Ctx) {
 					{fmt.Sprintf("s%d", b.total-1), "r", "r", fmt.Sprintf("s%d", g1+1), "r", fmt.Sprintf("s%d", b.total+4), "r", "s0", "r"},
 				} {
 					c08Run(c, &c08Case{File: p, Open: o, Target: "multipages", Col: col, Ops: h}, bucket)
+				}
+				// Column.Pages(): backward seeks out of a row group that has been
+				// read from (entered by a seek, by reading on from the row group
+				// before it, after io.EOF), then a sequential read to the end
+				if len(b.rgOff) < 3 {
+					continue
+				}
+				g2 := b.rgOff[2]
+				for hi, h := range [][]string{
+					{fmt.Sprintf("s%d", g1), "r", fmt.Sprintf("s%d", g1-1), "r", "r", "r"},
+					{fmt.Sprintf("s%d", g2), "r", "r", fmt.Sprintf("s%d", g1+1), "r", "s0", "r"},
+					{"r", "r", fmt.Sprintf("s%d", g2+1), "r", fmt.Sprintf("s%d", g1), "r", "r", fmt.Sprintf("s%d", g1-1), "r", "r"},
+					{fmt.Sprintf("s%d", g1-1), "r", "r", "r", "s0"},
+					{fmt.Sprintf("s%d", b.total-1), "r", "r", fmt.Sprintf("s%d", g1), "r", "s2"},
+				} {
+					cs := &c08Case{File: p, Open: o, Target: "columnpages", Col: col, Ops: h, Drain: true, From: hi%2 == 1 && o == (c08Open{})}
+					c08Run(c, cs, bucket)
+					addVm(cs)
 				}
 			}
 		}
@@ -1821,6 +1948,14 @@ func runC08(c *core.Ctx) {
 			palpha = append(palpha, fmt.Sprintf("s%d", b4.rgOff[2]+1))
 			nalpha = append(nalpha, "r3", "s0", fmt.Sprintf("s%d", b4.rgOff[2]+1))
 		}
+		// Column.Pages() of every column over the four row groups, each history
+		// followed by a sequential read to the end
+		for col := 0; col < c08NumCols; col++ {
+			for _, o := range []c08Open{{}, {SkipIndex: true}} {
+				exhaustive(c08Case{File: p4, Open: o, Target: "columnpages", Col: col, Drain: true}, palpha, c.N(length-1, length),
+					fmt.Sprintf("exhaustive/columnpages/v%d/skipindex=%v", v, o.SkipIndex), 53)
+			}
+		}
 		for _, nest := range c08NestShapes(4) {
 			for _, col := range []int{0, 2, 4} {
 				if c.Quick() && col != 2 {
@@ -1834,12 +1969,12 @@ func runC08(c *core.Ctx) {
 		}
 	}
 	c.Res.Exhaustive = true
-	c.Note("exhaustive, one operation shorter: the page and row alphabets on encrypted 22-row files (encrypted footer; plaintext footer with column keys; read buffer default and 64 bytes), and {ReadPage, SeekToRow(first row of every row group, last row of the second one, N, N+3)} / {ReadRows 1/64, Reset, SeekToRow(first row of every row group but the first, last row of the second one, N)} on the column pages and the rows of a file of 4 row groups of 5, 8, 3 and 6 rows combined with MultiRowGroup in the shapes %v", c08NestShapes(4))
+	c.Note("exhaustive, one operation shorter: the page and row alphabets on encrypted 22-row files (encrypted footer; plaintext footer with column keys; read buffer default and 64 bytes), and {ReadPage, SeekToRow(first row of every row group, last row of the second one, N, N+3)} / {ReadRows 1/64, Reset, SeekToRow(first row of every row group but the first, last row of the second one, N)} on the column pages and the rows of a file of 4 row groups of 5, 8, 3 and 6 rows combined with MultiRowGroup in the shapes %v; the first alphabet followed by a sequential read to the end on Column.Pages() of every column of that file, with and without the page index (thorough: full length)", c08NestShapes(4))
 	c.Note("exhaustive: all histories of length %d (async pages: %d) over the alphabets {ReadPage, SeekToRow(0, first page boundary -1/0/+1, page 5 boundary 0/+1, N-1, N, N+3)[, load index]} and {ReadRows 1/3/64[, Reader.Read], SeekToRow(0, boundary-1, boundary[, +1], N-1, N), Reset} on 22-row files; the same on the rows of the MultiRowGroup over both row groups, and {ReadPage, SeekToRow(0, row-group boundary -1/0/+1, first page boundary of each row group, N-1, N, N+3)} on its column pages (multiPages)", length, length-1)
 
 	// ---- random histories on larger files
 	nRand := c.N(2500, 40000)
-	nEnc, nBuf, nNest := 0, 0, 0
+	nEnc, nBuf, nNest, nDrain := 0, 0, 0, 0
 	pbs := []int{24, 64, 96}
 	for i := 0; i < nRand; i++ {
 		p := medium(1+c.Rng.Intn(2), pbs[c.Rng.Intn(len(pbs))])
@@ -1864,7 +1999,7 @@ func runC08(c *core.Ctx) {
 			cs.Open.ReadBuf = []int{16, 64, 300, 1 << 16}[c.Rng.Intn(4)]
 			nBuf++
 		}
-		cs.Target = []string{"pages", "pages", "rows", "reader", "generic", "multipages", "multirows"}[c.Rng.Intn(7)]
+		cs.Target = []string{"pages", "pages", "rows", "reader", "generic", "multipages", "multirows", "columnpages"}[c.Rng.Intn(8)]
 		if len(b.rgRows) < 2 && (cs.Target == "multipages" || cs.Target == "multirows") {
 			cs.Target = "rows"
 		}
@@ -1877,8 +2012,11 @@ func runC08(c *core.Ctx) {
 			points = c08SeekPoints(b.layout[cs.RG][cs.Col], N, false)
 		} else {
 			cs.RG = 0
-			if cs.Target != "multipages" {
+			if cs.Target != "multipages" && cs.Target != "columnpages" {
 				cs.Col = 0
+			}
+			if cs.Target == "columnpages" {
+				cs.From = c.Rng.Intn(4) == 0
 			}
 			if (cs.Target == "multipages" || cs.Target == "multirows") && c.Rng.Intn(3) != 0 {
 				cs.Nest = c08RandomNest(c.Rng, len(b.rgRows), 1+c.Rng.Intn(4))
@@ -1890,12 +2028,17 @@ func runC08(c *core.Ctx) {
 				}
 			}
 		}
+		pageTarget := cs.Target == "pages" || cs.Target == "multipages" || cs.Target == "columnpages"
+		if pageTarget && c.Rng.Intn(2) == 0 {
+			cs.Drain = true
+			nDrain++
+		}
 		n := 1 + c.Rng.Intn(40)
 		for j := 0; j < n; j++ {
 			x := c.Rng.Intn(100)
 			switch {
 			case x < 45:
-				if cs.Target == "pages" || cs.Target == "multipages" {
+				if pageTarget {
 					cs.Ops = append(cs.Ops, "r")
 				} else if cs.Target == "reader" && c.Rng.Intn(4) == 0 {
 					cs.Ops = append(cs.Ops, "g")
@@ -1909,7 +2052,7 @@ func runC08(c *core.Ctx) {
 			case x < 96:
 				if cs.Target == "pages" && cs.Open.SkipIndex {
 					cs.Ops = append(cs.Ops, "l")
-				} else if cs.Target != "pages" && cs.Target != "multipages" {
+				} else if !pageTarget {
 					cs.Ops = append(cs.Ops, "x")
 				} else {
 					cs.Ops = append(cs.Ops, "r")
@@ -1926,7 +2069,7 @@ func runC08(c *core.Ctx) {
 			addVm(cs)
 		}
 	}
-	c.Note("random histories: %d on encrypted files, %d with a ReadBufferSize of 16, 64, 300 or 65536 bytes, %d on randomly nested multi row groups (1..4 levels of MultiRowGroup)", nEnc, nBuf, nNest)
+	c.Note("random histories: %d on encrypted files, %d with a ReadBufferSize of 16, 64, 300 or 65536 bytes, %d on randomly nested multi row groups (1..4 levels of MultiRowGroup), %d histories of a page reader followed by a sequential read to the end", nEnc, nBuf, nNest, nDrain)
 	for cl, n := range c08Reported {
 		if n > 1 {
 			c.Note("class %s: %d failing histories in total (first one shrunk and reported)", cl, n)
@@ -1935,7 +2078,7 @@ func runC08(c *core.Ctx) {
 	c.Note("row-range views (row_range.go) have no exported constructor; they are reached only through the merge planner and are not exercised here")
 	c.Note("async read mode: histories are run under the Go scheduler as it comes; the asyncPages model is run under schedules drawn by the oracle (2 per async page history) and must return the same outputs")
 
-	c.Vm("From Coq Require Import List Arith Bool.\nFrom PQ Require Import Cursor.Model Cursor.Multi Cursor.Nested.\nImport ListNotations.")
+	c.Vm("From Coq Require Import List Arith Bool.\nFrom PQ Require Import Cursor.Model Cursor.Multi Cursor.Nested Cursor.ColumnPages.\nImport ListNotations.")
 	c.Vm("Definition out_eqb (a b : out) : bool :=\n  match a, b with\n  | Rows f c, Rows f' c' => (f =? f') && (c =? c')\n  | EOF, EOF | SeekOk, SeekOk | OutOfRange, OutOfRange | Done, Done => true\n  | _, _ => false\n  end.")
 	c.Vm("Fixpoint outs_eqb (a b : list out) : bool :=\n  match a, b with\n  | [], [] => true\n  | x :: a', y :: b' => out_eqb x y && outs_eqb a' b'\n  | _, _ => false\n  end.")
 	c.Vm("Definition cases : list (list nat * list op * list out) := [\n  " + strings.Join(vm, ";\n  ") + "].")
@@ -1950,8 +2093,10 @@ func runC08(c *core.Ctx) {
 	c.Vm("Definition xmismatches := filter (fun '(cols, ops, outs) => negb (mouts_eqb (run_reader_indexed cols ops) outs)) xcases.")
 	c.Vm("Definition ncases : list (rgtree * list op * list out) := [\n  " + strings.Join(vmNested, ";\n  ") + "].")
 	c.Vm("Definition nmismatches := filter (fun '(t, ops, outs) => negb (outs_eqb (run_nested_indexed t ops) outs)) ncases.")
-	c.Vm("Definition M := Eval vm_compute in (length cases + length rcases + length xcases + length ncases, repeat tt (length mismatches + length rmismatches + length xmismatches + length nmismatches)).\nPrint M.")
-	c.Res.VmCases = len(vm) + len(vmRows) + len(vmReader) + len(vmNested)
+	c.Vm("Definition cpcases : list (list chunk * list op * list out) := [\n  " + strings.Join(vmCP, ";\n  ") + "].")
+	c.Vm("Definition cpmismatches := filter (fun '(chunks, ops, outs) => negb (outs_eqb (run_cpages_indexed chunks ops) outs)) cpcases.")
+	c.Vm("Definition M := Eval vm_compute in (length cases + length rcases + length xcases + length ncases + length cpcases, repeat tt (length mismatches + length rmismatches + length xmismatches + length nmismatches + length cpmismatches)).\nPrint M.")
+	c.Res.VmCases = len(vm) + len(vmRows) + len(vmReader) + len(vmNested) + len(vmCP)
 }
 
 func replayC08(c *core.Ctx, raw json.RawMessage) {
